@@ -14,7 +14,8 @@ use rustpython_parser::ast::{Expr, Ranged, Stmt};
 use std::collections::HashSet;
 // verification hook: solver-friendly set/map stand-ins of the harness crate (see /verif/DESIGN.md §9)
 #[cfg(pytest_language_server_verif)]
-use crate::verif_collections::HashSet;
+#[allow(unused_imports)]
+use crate::verif_collections::*;
 use std::path::Path;
 use tracing::{debug, info};
 
@@ -1514,7 +1515,8 @@ impl FixtureDatabase {
         #[cfg(not(pytest_language_server_verif))]
         use std::collections::HashMap;
         #[cfg(pytest_language_server_verif)]
-        use crate::verif_collections::HashMap;
+        #[allow(unused_imports)]
+        use crate::verif_collections::*;
 
         // Build dependency graph: fixture_name -> dependencies (only known fixtures)
         let mut dep_graph: HashMap<String, Vec<String>> = HashMap::new();
